@@ -108,6 +108,10 @@ def run_case(case, ctx):
     ids_index = {r['id']: i for i, r in enumerate(rows)}
     # +-inf cells under a NaN condition: the library deliberately counts inf as NaN on both sides; only the partition is claimed there
     inf_vs_nan = 'kw' in cond and any(isinstance(v, dict) and '$nan' in v for v in cond['kw'].values()) and any(isinstance(x, float) and abs(x) == float('inf') for r in rows for x in r.values())
+    nan_in_list = 'kw' in cond and any(isinstance(v, list) and any(isinstance(x, dict) and '$nan' in x for x in v) for v in cond['kw'].values())
+    if nan_in_list:
+        ctx.cls('nan_inside_value_list')
+    inf_vs_nan = inf_vs_nan or nan_in_list      # whether a NaN cell 'is in' a list holding a NaN is Python's identity-or-== rule: only the partition is claimed
     if inf_vs_nan:
         exp_inc = list(inc.get('id')) if hasattr(inc, 'get') else exp_inc
         exp_exc = [i for i in [r['id'] for r in rows] if i not in set(exp_inc)]
@@ -119,6 +123,19 @@ def run_case(case, ctx):
     ctx.check('operands_unchanged', core.snap_same(core.snap(dict(d)), snap0), lambda: 'table modified by inc/exc')
     a3, k3 = fresh_args()
     st3, inc2 = ctx.call(inc.inc, *a3, **k3)
+    # results belong to the caller: whatever is done to them, the same selection made again is unaffected
+    for res_ in (inc, exc):
+        try:
+            res_['__seen__'] = True
+            del res_[[c for c in cols if c != 'id'][0]]
+        except Exception:
+            pass
+    a8, k8 = fresh_args()
+    st8, inc8 = ctx.call(d.inc, *a8, **k8)
+    a9, k9 = fresh_args()
+    st9, exc9 = ctx.call(d.exc, *a9, **k9)
+    ctx.check('results_are_fresh', st8 == 'ok' and st9 == 'ok' and full(inc8, exp_inc) and full(exc9, exp_exc) and sorted(inc8.keys()) == sorted(cols) and sorted(exc9.keys()) == sorted(cols),
+              lambda: 'after the caller edited earlier results, the same selection gives inc %s %s / exc %s %s (table columns %s)' % (st8, inc8 if st8 != 'ok' else (list(inc8.keys()), list(inc8.get('id', []))), st9, exc9 if st9 != 'ok' else (list(exc9.keys()), list(exc9.get('id', []))), list(cols)))
     ctx.check('inc_idempotent', st3 == 'ok' and list(inc2.get('id')) == exp_inc and sorted(inc2.keys()) == sorted(cols), lambda: 'inc(inc) = %s vs %s' % (inc2, exp_inc))
     st4, ident = ctx.call(d.inc)
     ctx.check('inc_noarg_identity', st4 == 'ok' and type(ident) is dictable and list(ident.get('id')) == [r['id'] for r in rows] and sorted(ident.keys()) == sorted(cols)
@@ -179,7 +196,7 @@ def run_case(case, ctx):
 
 def gen_case(rng):
     n = rng.choice([0, 1, 2, 3, 4, 5, 6, 8, 12, 20])
-    names = rng.sample(rng.choice([['a', 'b', 'c', 'd'], ['rate', 'rate_type', 'day_count', 'day']]), rng.randint(1, 3))
+    names = rng.sample(rng.choice([['a', 'b', 'c', 'd'], ['a', 'b', 'c', 'd'], ['rate', 'rate_type', 'day_count', 'day'], ['data', 'columns', 'x', 'key']]), rng.randint(1, 3))
     kinds = {c: rng.choice(['nifs', 'if', 'nf', 's', 'ns', 'nifs']) for c in names}
     cols = {c: [gen.cell(rng, nan=0.15 if 'f' in kinds[c] else 0, kinds=kinds[c]) for _ in range(n)] for c in names}
     cols['id'] = list(range(10, 10 + n))
@@ -207,8 +224,11 @@ def gen_case(rng):
                 if isinstance(v, dict):
                     v = {'$nan': 7}
             elif t < 0.5:
-                v = [x for x in (pick() for _ in range(rng.choice([1, 2, 3, 9, 12]))) if not isinstance(x, dict)] or [1]
-                v = [x for i, x in enumerate(v) if not any(x == y and type(x) is type(y) for y in v[:i])]
+                keep_nan = rng.random() < 0.2
+                v = [x for x in (pick() for _ in range(rng.choice([1, 2, 3, 9, 12]))) if keep_nan or not isinstance(x, dict)] or [1]
+                if keep_nan and rng.random() < 0.6:
+                    v.insert(rng.randrange(len(v) + 1), {'$nan': rng.choice([5, 6, 'np'])})
+                v = [x for i, x in enumerate(v) if isinstance(x, dict) or not any(x == y and type(x) is type(y) for y in v[:i])]
                 if len(v) >= 5:
                     v = v + [7, 8, 9, 'q', 'w', 'e', 5.5, 6.5][:max(0, 10 - len(v))]
                     rng.shuffle(v)
